@@ -1,4 +1,5 @@
 """C19 - multidimensional and contiguous views address exactly the elements they span (clauses)."""
+import re
 import json
 
 from .. import astx
@@ -413,6 +414,33 @@ def fullprod_rule(chk, db):
             if not ok:
                 chk.violation("FULLPROD", label, "partial-product", "%s: %s() multiplies the extents %s `%s`, not all rank() of them" % (
                     astx.loc(f, x), f["n"], "below index" if fwd else "above index", astx.show(a, 30)), {"where": astx.loc(f)})
+    # SIZESRC: the number of elements of an mdarray / mdspan is a function of its extents alone; the container (or the data
+    # handle) may hold more than the mapping addresses, so its size is not the answer
+    for f in db.funcs:
+        if f.get("body") is None or f["n"] != "size" or f.get("record") not in ("etl::mdarray", "etl::mdspan") or f["params"]:
+            continue
+        label = "%s :: source of the element count" % astx.sig(f)
+        chk.instance("SIZESRC")
+        foreign = None
+        from_extents = False
+        for x in astx.all_exprs(f, into_lambdas=True):
+            if x.get("k") == "call":
+                nm, q, recv, kind = astx.callee(x)
+                r0 = astx.strip_casts(recv) if recv is not None else None
+                if nm in ("fwd_prod_of_extents", "rev_prod_of_extents", "extent", "extents", "static_extent"):
+                    from_extents = True
+                if nm in ("size", "length", "capacity", "max_size") and r0 is not None and r0.get("k") == "mem" and r0.get("dk") == "field" \
+                        and not re.search(r"map|ext", r0.get("n", ""), re.I):
+                    foreign = x
+        ok = None if (foreign is None and not from_extents) else (foreign is None)
+        chk.obligation("SIZESRC", label, ok)
+        if foreign is not None:
+            chk.violation("SIZESRC", label, "size-from-container", "%s: size() returns `%s`: the container may hold more elements than "
+                          "the extents span (any container with size() >= required_span_size() is accepted), so size() and empty() "
+                          "disagree with the index space and with the mdspan view of the same array" % (astx.loc(f, foreign), astx.show(foreign, 40)),
+                          {"where": astx.loc(f)})
+        elif ok is None:
+            chk.unknown_instance("SIZESRC", label, "neither an extents product nor a container size recognised")
     if n < 2:
         chk.analysis_broken("FULLPROD: only %d total-size products found in mdspan / mdarray / layout mappings (floor 2)" % n)
 
@@ -756,6 +784,8 @@ META = (META[0] + " SIB; MAPPED (every element access takes its offset from the 
 META = (META[0] + ' FULLPROD (total sizes multiply all rank() extents).', META[1])
 META = (META[0] + ' PRODLOOP (accumulated extents are indexed by the loop counter).', META[1])
 META = (META[0] + ' TRANSP-CALL; polynomial unrolling of loop-shaped layout mappings (ranks 1-4).', META[1])
+
+META = (META[0] + ' SIZESRC (size() of mdarray / mdspan is computed from the extents, never from the container or data handle).', META[1])
 
 
 def run(chk, tier):
